@@ -252,11 +252,26 @@ where
             return Err(PlanningError::InvalidStartState);
         }
 
+        // The goal tree's root is a goal sample that no motion check ever validates.
+        let mut goal_root_is_valid = false;
+
         // Main loop
         loop {
             // 1. Check for timeout
             if start_time.elapsed() > timeout {
                 return Err(PlanningError::Timeout);
+            }
+
+            // Do not grow anything from (or towards) an invalid goal root: draw another goal
+            // sample instead, until one is valid or the time runs out.
+            if !goal_root_is_valid {
+                if !vc.is_valid(&self.goal_tree[0].state) {
+                    if let Ok(candidate) = goal.sample_goal(&mut rng) {
+                        self.goal_tree[0].state = candidate;
+                    }
+                    continue;
+                }
+                goal_root_is_valid = true;
             }
 
             // 2. Determine which tree to grow (tree_a) and which to connect to (tree_b). This
